@@ -499,6 +499,8 @@ def val_eq(E, a, b):
             if cands:
                 return E.call_fn(cands[0], [Ref([a], 0), Ref([b], 0)], None)
         return b_and(*[val_eq(E, x, y) for x, y in zip(a.fields, b.fields)])
+    if isinstance(a, Obj) and isinstance(b, Obj) and hasattr(a, 'original') and hasattr(b, 'original'):
+        return val_eq(E, a.original, b.original)
     if isinstance(a, MapV) and isinstance(b, MapV):
         raise ModelGap('map equality')
     raise ModelGap(f'val_eq {a!r} {b!r}')
@@ -1461,7 +1463,20 @@ def lower_items(E, items, upper=False):
         if b.conc() and b.v >= 0x80 or (not b.conc() and not E.branch(in_range(b, 0, 127))):
             c, k = decode_char(E, items, p)
             if not c.conc():
-                raise ModelGap('to_lowercase/uppercase of a symbolic non-ASCII char')
+                if upper:
+                    raise ModelGap('to_uppercase of a symbolic non-ASCII char')
+                # The only scalar values whose lowercase mapping contains ASCII are U+212A (KELVIN SIGN -> k)
+                # and U+0130 (-> i U+0307).  Any other non-ASCII char lowercases to non-ASCII text; the crate
+                # only compares the result with ASCII literals (Digest::from_str), for which keeping the
+                # original bytes is exact.  (Not exact for comparisons with non-ASCII text.)
+                if E.branch(i_eq(c, I('char', 0x212A))):
+                    out += lit('k')
+                elif E.branch(i_eq(c, I('char', 0x0130))):
+                    out += lit('i\u0307'.encode())
+                else:
+                    out += items[p:p + k]
+                p += k
+                continue
             ch = chr(c.v)
             if not upper and ch == 'Σ':
                 raise ModelGap('to_lowercase: final sigma rule not modelled')
